@@ -237,6 +237,8 @@ mut("C09-root-does-not-count-nodes", "C09", "counts-its-nodes", (S, "           
 mut("C12-upper-bound-flag-never-chosen", "C12", "store:final", (S, "                    bound: if alpha <= alpha_start {", "                    bound: if alpha < alpha_start {"))
 mut("C01-on-board-filter-admits-rank-8", "C01", "on-board-filter", ("src/board/piece.rs", "                mv.start.rank < 8\n", "                mv.start.rank <= 8\n"))
 mut("C01-on-board-filter-or-instead-of-and", "C01", "on-board-filter", ("src/board/piece.rs", "                    && mv.dest.rank < 8\n", "                    || mv.dest.rank < 8\n"))
+mut("C11-legal-move-counter-starts-at-one", "C11", "legal-move-counter", (S, "        let moves = self.board.get_all_moves();\n        let mut total_legal_moves = 0;\n", "        let moves = self.board.get_all_moves();\n        let mut total_legal_moves = 1;\n"))
+mut("C15-end-of-input-tested-against-one", "C15", "exit-only-on-count-zero", (U, "                Ok(0) | Err(_) => break,", "                Ok(1) | Err(_) => break,"))
 # ---- the plain generators and the bit iteration underneath them
 mut("C01-knight-cannot-capture", "C01", "generators:Knight", ("src/board/piece/knight.rs", "        let move_mask = Self::get_attacks(square) & !same_pieces;", "        let move_mask = Self::get_attacks(square) & !board.bitboards.all_pieces;"))
 mut("C01-bishop-black-own-is-white", "C01", "generators:Bishop:Black", ("src/board/piece/bishop.rs", "            Color::Black => board.bitboards.black_pieces,", "            Color::Black => board.bitboards.white_pieces,"))
